@@ -217,11 +217,18 @@ class Ctx:
 
 
 def sessions(ctx, n=None):
-    """histories of related calls (same ids in every spelling, through all three functions) in one process,
-    every event trace-validated: a result that depends on earlier calls is rejected where it shows"""
-    n = n or (400 if ctx.tier == "thorough" else 80)
-    ctx.drive("sessions", "session", n)
-    return ctx.validate_trace("sessions")
+    """histories of related calls (same ids in every spelling, through all three functions), every event trace-validated: a result
+    that depends on earlier calls is rejected where it shows.  Two processes: the ids listed at several table positions are walked
+    forward in one and backward in the other."""
+    n = n or (200 if ctx.tier == "thorough" else 30)
+    found = []
+    for k, seed in enumerate((2 * ctx.seed, 2 * ctx.seed + 1)):
+        path = os.path.join(ctx.spec, "trace.ndjson")
+        p = subprocess.run([ctx.harness, "drive", "-seed", str(seed), "-n", str(n), "-flavor", "session", "-out", path], capture_output=True, text=True)
+        if p.returncode != 0:
+            raise Infra("drive (sessions) failed: " + p.stderr[-2000:])
+        found += ctx.validate_trace("sessions-%s" % ("fwd" if k else "bwd"))
+    return found
 
 
 # ------------------------------------------------------------------ known findings
